@@ -27,7 +27,7 @@ from ..common import Check, workdir
 from ..tlc import run_tlc, run_trace_tlc
 
 LEVEL = "model_checking"
-FAULTS = ("eof", "reset", "timeout", "garbage-eof", "write-error", "sorry")
+FAULTS = ("eof", "reset", "timeout", "garbage-eof", "refused-eof", "write-error", "sorry")
 
 
 def model(chk: Check, tier: str, prefix="C13"):
@@ -49,10 +49,21 @@ def model(chk: Check, tier: str, prefix="C13"):
     # caller inside its suspending notification)
     twice = (("MC_Client_close2.cfg", "MC_Client_close2_slow.cfg") if tier != "thorough" else
              ("MC_Client_close2_thorough.cfg", "MC_Client_close2_slow_thorough.cfg"))
-    with ThreadPoolExecutor(2) as ex:
-        results += list(ex.map(one, serial))
-        results += list(ex.map(one, twice))
-    cfgs = cfgs + serial + twice
+    # several send() calls over a behaviour (MaxSend = 3: the user's, and a network-map client's own requests): failures of more
+    # than one of them, on the same link and across reconnections
+    sends = (("MC_Client_sends.cfg", "MC_Client_sends_slow.cfg") if tier != "thorough" else
+             ("MC_Client_sends_thorough.cfg", "MC_Client_sends_slow_thorough.cfg"))
+    if tier != "thorough":
+        # the quick tier takes one configuration of each family (the richer one); the thorough tier both, with larger constants
+        serial, twice, sends = serial[1:], twice[1:], sends[:1]
+        with ThreadPoolExecutor(3) as ex:
+            results += list(ex.map(one, serial + twice + sends))
+    else:
+        with ThreadPoolExecutor(2) as ex:
+            results += list(ex.map(one, serial))
+            results += list(ex.map(one, twice))
+            results += list(ex.map(one, sends))
+    cfgs = cfgs + serial + twice + sends
     for cfg, r in zip(cfgs, results):
         for inv in r.violated:
             viol = ""
@@ -90,6 +101,12 @@ def fault_injector(kind: str, fault: str, step: int | None, at: float | None, pl
             elif fault == "timeout":          # keep-alive expiry: the read fails with TimeoutError (an OSError)
                 s.ev("Reset", conn=c)
                 s.readers[c].set_exception(TimeoutError(110, "Connection timed out"))
+            elif fault == "refused-eof":      # a well-formed packet the decoder refuses by raising (three kinds), then the end of the stream
+                for lab in ("out-of-range", "truncated-fast", "unsupported-raises"):
+                    for p_, l_ in cf.cr.wire_packets(kind, cf.cr.sample_messages(random.Random(1), 1), random.Random(0)):
+                        if l_ == lab:
+                            s.feed(c, p_)
+                s.loop.call_later(1.0, lambda: (not s.readers[c].at_eof()) and s.eof(c))
             elif fault == "garbage-eof":
                 s.feed(c, b"\x01garbage\xff\xaa\x55 not a packet\r\n\x00\x00")
                 s.eof(c)
